@@ -58,16 +58,38 @@ def check_partition(continuum, alignment, cover=False):
 
 
 # =========================================================================== M-DIS
-def check_disorders(continuum, alignment, dissim, carried=True):
-    """Cached alignment disorder and carried unitary disorders against the definition recomputed (float64,
-    through the dissimilarity's unit-to-unit function) from the units."""
+def compiled_pair_cost(dissim, categories):
+    """Unit-to-unit cost through the compiled kernel on float32 arrays built here (the precision model of the
+    library itself): used when the inputs are arbitrary doubles, for which d() in float64 legitimately differs."""
+    import numpy as np
+    cats = list(dissim.categories) if dissim.categories is not None else list(categories)
+    index = {c: i for i, c in enumerate(cats)}
+
+    def arr(u):
+        return np.array([u.segment.start, u.segment.end, u.segment.end - u.segment.start,
+                         index[u.annotation] if u.annotation is not None else len(cats)], dtype=np.float32)
+
+    def cost(u1, u2):
+        return float(dissim.d_mat(arr(u1), arr(u2)))
+    return cost
+
+
+def check_disorders(continuum, alignment, dissim, carried=True, via="d"):
+    """Cached alignment disorder and carried unitary disorders against the definition recomputed (float64 pair
+    mean) from the units; pair costs through the dissimilarity's unit-to-unit function d() (via="d") or through
+    its compiled kernel on float32 arrays (via="d_mat", for inputs that are not float32-representable)."""
     problems = []
-    order = list(continuum.annotators) if continuum is not None else None
     total = 0.0
+    if via == "d_mat":
+        cats = continuum.categories if continuum is not None else sorted(
+            {u.annotation for ua in alignment.unitary_alignments for _, u in ua.n_tuple if u is not None and u.annotation is not None})
+        pair = compiled_pair_cost(dissim, cats)
+    else:
+        pair = dissim.d
     for k, ua in enumerate(alignment.unitary_alignments):
         nt = ua.n_tuple
         units = [u for _, u in nt]
-        ref = oracles.ref_unitary_disorder(units, dissim.d, dissim.delta_empty)
+        ref = oracles.ref_unitary_disorder(units, pair, dissim.delta_empty)
         total += ref
         if carried:
             try:
@@ -180,7 +202,7 @@ def invariant_paused():
 
 
 # =========================================================================== installable post-conditions
-def install_alignment_postconditions(part=True, dis=True, tag_prefix="", keyer=None):
+def install_alignment_postconditions(part=True, dis=True, tag_prefix="", keyer=None, dis_via="d"):
     """icontract post-conditions on get_best_alignment / get_best_soft_alignment / get_fast_alignment.
     Every (also internal: windows of the fast alignment) call is checked."""
     import icontract
@@ -201,7 +223,7 @@ def install_alignment_postconditions(part=True, dis=True, tag_prefix="", keyer=N
             if dis:
                 ctx.count(tag_prefix + "M-DIS")
                 try:
-                    pr, _ = check_disorders(self, result, dissimilarity)
+                    pr, _ = check_disorders(self, result, dissimilarity, via=dis_via)
                 except Exception as e:  # e.g. d() cannot evaluate: reported, never raised into the workload
                     pr = [f"reference evaluation failed: {type(e).__name__}: {e}"]
                 if pr:
